@@ -203,6 +203,16 @@ func init() {
 	intrinsics[verifrtPath+"And"] = func(ex *Exec, st *State, f *Frame, fn FuncV, args []Value, retTo ssa.Value, instr ssa.Instruction) bool {
 		return ret(f, retTo, ex.tb.And(args[0].(*Term), args[1].(*Term)))
 	}
+	intrinsics[verifrtPath+"SetStepBudget"] = func(ex *Exec, st *State, f *Frame, fn FuncV, args []Value, retTo ssa.Value, instr ssa.Instruction) bool {
+		n := args[0].(*Term)
+		if n.c == 0 {
+			st.stepLimit = 0
+		} else {
+			st.stepLimit = st.steps + int(n.c)
+			st.stepMsg = ex.strArg(args[1])
+		}
+		return ret(f, retTo, nil)
+	}
 	intrinsics[verifrtPath+"Symbolic"] = func(ex *Exec, st *State, f *Frame, fn FuncV, args []Value, retTo ssa.Value, instr ssa.Instruction) bool {
 		return ret(f, retTo, ex.tb.True())
 	}
@@ -392,6 +402,10 @@ func init() {
 		return ret(f, retTo, Opaque{Why: "reflectlite.TypeOf"})
 	}
 
+	intrinsics["internal/bytealg.MakeNoZero"] = func(ex *Exec, st *State, f *Frame, fn FuncV, args []Value, retTo ssa.Value, instr ssa.Instruction) bool {
+		n := args[0].(*Term)
+		return ret(f, retTo, ex.makeSlice(st, types.Typ[types.Uint8], n, n, instr))
+	}
 	intrinsics["internal/abi.NoEscape"] = func(ex *Exec, st *State, f *Frame, fn FuncV, args []Value, retTo ssa.Value, instr ssa.Instruction) bool {
 		return ret(f, retTo, args[0])
 	}
